@@ -17,7 +17,7 @@ R7 every constant the library itself stores in a JSON-typed property (e.g. '' af
 import ast
 
 from ..core import AnalysisError, Unfoldable, norm, loc, walk_no_nested, attr_chain, call_name, kwarg, receiver_name, func_params
-from ..normalize import inline, local_env, expand, canon, ctext, conjuncts, negate, _enclosing, eval_test, Unknown
+from ..normalize import inline, local_env, expand, canon, ctext, conjuncts, negate, _enclosing, eval_test, Unknown, unroll_const_loops
 from ..cfg import CFG
 from .. import nxgraph as nxg
 from .. import flow
@@ -27,6 +27,36 @@ GML = 'fim.graph.graph_util:GraphML'
 ABCI = 'fim.graph.abc_property_graph:ABCGraphImporter'
 TOPO = 'fim.user.topology:Topology'
 
+
+
+class _FoldText(ast.NodeTransformer):
+    def visit_JoinedStr(self, node):
+        self.generic_visit(node)
+        parts = []
+        for v in node.values:
+            if isinstance(v, ast.Constant) and isinstance(v.value, str):
+                parts.append(v.value)
+            elif isinstance(v, ast.FormattedValue) and v.conversion == -1 and v.format_spec is None and isinstance(v.value, ast.Constant) and \
+                    isinstance(v.value.value, str):
+                parts.append(v.value.value)
+            else:
+                return node
+        return ast.copy_location(ast.Constant(value=''.join(parts)), node)
+
+    def visit_IfExp(self, node):
+        self.generic_visit(node)
+        if isinstance(node.test, ast.Constant):
+            return node.body if node.test.value else node.orelse
+        return node
+
+
+def _fold_const_text(fn):
+    fn = _FoldText().visit(fn)
+    ast.fix_missing_locations(fn)
+    for n in ast.walk(fn):
+        for ch in ast.iter_child_nodes(n):
+            ch._parent = n
+    return fn
 
 def run(prog, rep):
     rep.extra['explanation'] = (
@@ -45,7 +75,7 @@ def run(prog, rep):
     rep.rule('R6', 'identity properties are stamped at creation', floor=4)
     rep.rule('R7', 'sentinel values the library writes into JSON properties are skipped by graph validation', floor=2)   # (empty text always counts; was 2 until the '' written by unmerge_adm was replaced by an unset, /repo fix for C14)
     rep.rule('R8', 'a (re-)import moves the id allocator past the imported nodes on every path', floor=4)
-    nxg.check_allocator_paths(prog, rep, 'R8')
+    nxg.check_allocators(prog, rep, 'R8')   # both stores, and the path rule at its end
 
     # R9: loading a model keeps the graph id its text carries, unless the caller names another
     rep.rule('R9', 'topology loaders use the id-keeping import unless the caller supplies a new graph id', floor=3)
@@ -141,7 +171,8 @@ def run(prog, rep):
     n2n_raw = gml.methods.get('networkx_to_neo4j')
     if n2n_raw is None:
         raise AnalysisError('GraphML.networkx_to_neo4j vanished')
-    n2n = inline(prog, gml, n2n_raw)
+    # a class-level table of (element, attribute, prefix) rows is read row by row; text assembled from constants only is a constant
+    n2n = _fold_const_text(unroll_const_loops(prog, gml, inline(prog, gml, n2n_raw)))
     is_src0 = lambda c: call_name(c) in ('generate_graphml',)
     is_san0 = lambda c: call_name(c) == 'networkx_to_neo4j'
     # wrappers: a function of the GraphML helper class all of whose returns are marked-up GraphML text produces clean text
@@ -276,6 +307,15 @@ def run(prog, rep):
         rep.violation('R2', loc(gml.module, n2n), 'GraphML.networkx_to_neo4j', 'result is not the modified tree', 'the marked-up tree must be returned')
     # class key lookup for both scopes
     cmp_consts = {c.value for n in walk_no_nested(n2n) if isinstance(n, ast.Compare) for c in [n.left] + n.comparators if isinstance(c, ast.Constant)}
+    # ... or membership of the scope in a literal table keyed by scope
+    for n in walk_no_nested(n2n):
+        if isinstance(n, ast.Compare) and len(n.ops) == 1 and isinstance(n.ops[0], ast.In):
+            tb = expand(n.comparators[0], env2)
+            if isinstance(tb, ast.Name):
+                lits = [a.value for a in walk_no_nested(n2n) if isinstance(a, ast.Assign) and any(isinstance(t, ast.Name) and t.id == tb.id for t in a.targets)]
+                tb = lits[0] if len(lits) == 1 else tb
+            keys = tb.keys if isinstance(tb, ast.Dict) else tb.elts if isinstance(tb, (ast.Tuple, ast.List, ast.Set)) else []
+            cmp_consts |= {k.value for k in keys if isinstance(k, ast.Constant)}
     for scope in ('edge', 'node'):
         if scope not in cmp_consts:
             rep.violation('R2', loc(gml.module, n2n), 'GraphML.networkx_to_neo4j', f'Class key of {scope}s not looked up', f'{scope} labels cannot be derived')
